@@ -62,7 +62,15 @@ fn kinds(proxy: &str) -> Vec<Kind> {
         k(p1, "v1-unknown"),
         k(p1, "v2-local"),
         k(p2, "v2-local"),
+        // the announced source is the load balancer's own address
+        k(p1, "v1:127.0.0.1:4444"),
     ]
+}
+
+/// kinds whose header arrives in two TCP segments with a pause in between (real time, so they are only
+/// used in a handful of dedicated histories)
+fn split_kinds() -> Vec<Kind> {
+    vec![k("127.0.0.1", &format!("v1/3:{X}")), k("127.0.0.1", &format!("v2/5:{X}")), k("127.0.0.2", &format!("v2/13:{Z}")), k("127.0.0.1", &format!("v1/1:{Y}"))]
 }
 
 fn header_bytes(kind: &Kind, server: SocketAddr) -> Vec<u8> {
@@ -73,6 +81,11 @@ fn header_bytes(kind: &Kind, server: SocketAddr) -> Vec<u8> {
         "v2-local" => proxy_v2_local(),
         "malformed" => b"PROXY TCP4 999.1.1.1 1.1.1.1 1 1\r\n".to_vec(),
         "truncated" => proxy_v1(X.parse().unwrap(), server)[..12].to_vec(),
+        h if h.starts_with("v1/") || h.starts_with("v2/") => {
+            let (ver, rest) = h.split_at(2);
+            let a: SocketAddr = rest.split_once(':').unwrap().1.parse().unwrap();
+            if ver == "v1" { proxy_v1(a, dst(a)) } else { proxy_v2(a, dst(a)) }
+        }
         h if h.starts_with("v1:") => {
             let a: SocketAddr = h[3..].parse().unwrap();
             proxy_v1(a, dst(a))
@@ -99,6 +112,7 @@ fn expect(proxy: &str, kind: &Kind, peer_addr: SocketAddr) -> Expect {
     if proxy == "off" {
         return Expect::Limited(peer_addr);
     }
+    // "neither": PROXY protocol is on but no version is allowed, so no header can be valid
     let version_allowed = |v: &str| proxy == "v1v2" || (proxy == "v2only" && v == "v2") || (proxy == "v1only" && v == "v1");
     match kind.header.as_str() {
         "none" | "malformed" | "truncated" => Expect::ClosedUncounted,
@@ -106,7 +120,8 @@ fn expect(proxy: &str, kind: &Kind, peer_addr: SocketAddr) -> Expect {
         "v2-local" => if version_allowed("v2") { Expect::PeerOrClosed } else { Expect::ClosedUncounted },
         h => {
             let (v, a) = h.split_at(2);
-            if version_allowed(v) { Expect::Limited(a[1..].parse().unwrap()) } else { Expect::ClosedUncounted }
+            let a = a.split_once(':').unwrap().1;
+            if version_allowed(v) { Expect::Limited(a.parse().unwrap()) } else { Expect::ClosedUncounted }
         }
     }
 }
@@ -127,7 +142,18 @@ async fn run_connection(server: SocketAddr, kind: &Kind, login: bool) -> ConnObs
     };
     let local = c.local;
     let hdr = header_bytes(kind, server);
-    let _ = c.send_raw(&hdr).await;
+    match kind.header.split_once('/').and_then(|(_, r)| r.split_once(':')).and_then(|(n, _)| n.parse::<usize>().ok()) {
+        Some(n) => {
+            // the header arrives in two segments
+            let n = n.min(hdr.len());
+            let _ = c.send_raw(&hdr[..n]).await;
+            tokio::time::sleep(Duration::from_millis(60)).await;
+            let _ = c.send_raw(&hdr[n..]).await;
+        }
+        None => {
+            let _ = c.send_raw(&hdr).await;
+        }
+    }
     if kind.header == "truncated" {
         use tokio::io::AsyncWriteExt;
         let _ = c.stream.shutdown().await;
@@ -165,6 +191,8 @@ fn run_history(spec: &Spec) -> Vec<(String, String)> {
             proxy: match spec.proxy.as_str() {
                 "off" => None,
                 "v1v2" => Some((true, true)),
+                "neither" => Some((false, false)),
+                "v1only" => Some((true, false)),
                 _ => Some((false, true)),
             },
             limiter: (spec.limit > 0).then_some((3600, spec.limit)),
@@ -252,6 +280,7 @@ fn run_history_via_start(spec: &Spec) -> Vec<(String, String)> {
         "v1only" => "v1",
         "v2only" => "v2",
         "v1v2" => "v1v2",
+        "neither" => "neither",
         _ => "off",
     };
     let app = spawn_app(10_000, 60, 20, mode, spec.limit);
@@ -361,8 +390,26 @@ pub fn run(cli: Cli) -> ! {
             }
         }
     }
+    // PROXY protocol on with no version allowed: whatever arrives is closed unserved and uncounted
+    for limit in [0usize, 1] {
+        let ks = kinds("v1v2");
+        for a in &ks {
+            specs.push(Spec { proxy: "neither".into(), limit, history: vec![a.clone()], login_last: false, via_start: false });
+        }
+        specs.push(Spec { proxy: "neither".into(), limit, history: ks.clone(), login_last: false, via_start: false });
+    }
+    // headers that arrive in two segments with a pause (every split kind alone, after and before a
+    // connection announcing the same source, under limit 1 and 2)
+    for limit in [1usize, 2, 0] {
+        for sk in split_kinds() {
+            let whole = k("127.0.0.2", &sk.header.replacen(&sk.header[2..sk.header.find(':').unwrap()], "", 1));
+            specs.push(Spec { proxy: "v1v2".into(), limit, history: vec![sk.clone()], login_last: false, via_start: false });
+            specs.push(Spec { proxy: "v1v2".into(), limit, history: vec![whole.clone(), sk.clone()], login_last: false, via_start: false });
+            specs.push(Spec { proxy: "v1v2".into(), limit, history: vec![sk.clone(), whole.clone(), sk.clone()], login_last: false, via_start: false });
+        }
+    }
     // configuration -> listener wiring: the same kinds against passage::start for the one-version configurations
-    for proxy in ["v1only", "v2only", "v1v2", "off"] {
+    for proxy in ["v1only", "v2only", "v1v2", "neither", "off"] {
         let ks = kinds(if proxy == "off" { "off" } else { "v1v2" });
         for limit in [0usize, 1] {
             // one history that walks through every kind once, and its reverse
@@ -397,7 +444,7 @@ pub fn run(cli: Cli) -> ! {
     rep.set("histories", json!(specs.len()));
     rep.set("connections", json!(conns.load(Ordering::Relaxed)));
     rep.set("exhaustive", json!(true));
-    rep.set("rule", json!("all arrival histories up to depth 3/4 over 12 connection kinds (two load-balancer peers; PROXY v1/v2 headers announcing two IPv4 and one IPv6 source; absent, malformed, truncated, disabled-version and address-less headers) for PROXY {v1+v2, v2 only, off} x limiter {limit 1, limit 2, off} with a one hour window; each connection is a real TCP connection that ends at a barrier (status reply or end of stream); plus histories ending in a full login. distinct_nontrivial = distinct (configuration, sequence of header classes)."));
+    rep.set("rule", json!("all arrival histories up to depth 3/4 over 13 connection kinds (two load-balancer peers; a source equal to the load balancer's own address; PROXY v1/v2 headers announcing two IPv4 and one IPv6 source; absent, malformed, truncated, disabled-version and address-less headers) for PROXY {v1+v2, v2 only, off} x limiter {limit 1, limit 2, off} with a one hour window; each connection is a real TCP connection that ends at a barrier (status reply or end of stream); plus histories ending in a full login, histories whose header arrives in two segments with a pause, and the configuration in which PROXY protocol is on but no version is allowed. distinct_nontrivial = distinct (configuration, sequence of header classes)."));
     rep.sample(json!({"spec": specs[0]}));
     rep.sample(json!({"spec": Spec { proxy: "v1v2".into(), limit: 1, history: vec![k("127.0.0.1", &format!("v1:{X}")), k("127.0.0.2", &format!("v1:{X}")), k("127.0.0.1", "none")], login_last: false, via_start: false }, "expect": "served, refused (same announced source through another load balancer), closed uncounted"}));
     rep.assume("the verdict 'served exactly when the limiter admits' uses a shadow instance of the real RateLimiter fed with the reference model's effective addresses (the limiter's own bounds are C13's subject)");
